@@ -75,11 +75,28 @@ CODE_GRAN = {
 
 FAMILIES = sorted(set(MANUAL_FAMILIES) & set(CODE_GRAN))
 
-# doc/file-formats.md, "Table: Codings of the Segment Field".  The table calls
-# segment 6 BDATA, the SEGMENT statement of the assembler calls it BITDATA:
-# both spellings are accepted.  Segment 0 (<undefined>) is never generated.
-SEGMENTS = {1: ('CODE',), 2: ('DATA',), 3: ('IDATA',), 4: ('XDATA',), 5: ('YDATA',),
-            6: ('BDATA', 'BITDATA'), 7: ('IO',), 8: ('REG',), 9: ('ROMDATA',)}
+# doc/file-formats.md, "Table: Codings of the Segment Field" (0..9).  The table calls
+# segment 6 BDATA, the SEGMENT statement of the assembler calls it BITDATA: both
+# spellings are accepted.  Segment 10 is EEDATA (segment numbers in
+# doc/assembler-usage.md, SEGMENT in doc/pseudo-instructions.md; asl writes it for
+# AVR and PIC16C8x).  Segment 0 is "<undefined>" in the table, which is not a name
+# a listing can be held to: for it any word that is not the name of another segment
+# is accepted (the tool prints NOTHING).
+SEGMENTS = {0: (), 1: ('CODE',), 2: ('DATA',), 3: ('IDATA',), 4: ('XDATA',), 5: ('YDATA',),
+            6: ('BDATA', 'BITDATA'), 7: ('IO',), 8: ('REG',), 9: ('ROMDATA',), 10: ('EEDATA',)}
+
+
+def segment_of_name(word):
+    """segment number a printed segment name stands for (0 for a word that names no segment 1..10)"""
+    w = word.upper()
+    for k, names in SEGMENTS.items():
+        if w in names:
+            return k
+    return 0
+
+
+def segment_name_ok(seg, word):
+    return segment_of_name(word) == seg
 
 
 def short_gran(family):
